@@ -432,14 +432,22 @@ def analyze(prog):
     for dest, ps in pairs.items():
         if len(ps) > 1:
             tags.add('rec_multi_pair')
-    # scopes: main (eager closure of the output) + one per case / candidate
-    eager = eager_closure(prog, prog['output'])
-    lazy_roots = [n for n in reach if any(k in ('case', 'cand') for _, _, k in cons[n])]
+    # scope instances: every _run_dag call of the engine is one scope (main pipeline, each one-of
+    # candidate, each execution of a switch inside a scope runs the case sub-pipeline as a new scope)
+    def count(root, dest, depth=0):
+        if depth > 6:
+            return 0
+        ec = eager_closure(prog, root)
+        n = 1 if dest in ec else 0
+        for x in ec:
+            for _, m in nodes[x].get('params', []):
+                if m[0] == 'sw':
+                    # the selected case is not known statically: take the maximum over cases
+                    n += max([count(c, dest, depth + 1) for _, c in m[3]] or [0])
+        return n
+    cand_nodes = [n for n in reach if any(k == 'cand' for _, _, k in cons[n])]
     for start, dest, mx, consumer in recs:
-        nsc = 1 if dest in eager else 0
-        for lr in lazy_roots:
-            if dest in eager_closure(prog, lr):
-                nsc += 1
+        nsc = count(prog['output'], dest) + sum(count(c, dest) for c in cand_nodes)
         if nsc > 1:
             tags.add('rec_two_scopes')
     starts = [s for s, _, _, _ in recs]
